@@ -6,6 +6,8 @@ translate:      harness/translate_userfield.py -> lean/OdfModel/Generated/ValueT
 proof:          lean/OdfModel/Props/C19.lean about lean/OdfModel/UserField.lean
                 (upd_table_is_spec, update_sets, expectedView_verbatim, update_frame, updateDoc_frame,
                 unknown_names_ignored, update_idempotent, list_readonly, ...)
+                lean/OdfModel/Props/C19Pkg.lean about UserField.lean x Pkg.lean: the tool at package level
+                (update_members_frame, update_manifest_same, update_content_member, list_readonly_pkg, ...)
 correspondence: the same document (items of content.xml + styles.xml in document order: declarations with their
                 ordered attribute lists, every other element as an interned payload) and the same dictionary through
                 UserFields.update / list_fields_and_values and through drv_userfield; plus lexical cases for the boolean
@@ -631,11 +633,13 @@ def run(chk, replay=None):
         for n in m['notes']:
             chk.notes.append(n)
     # 2 prove
-    ok = chk.prove(modules=['OdfModel.Props.C19', 'OdfModel.Props.C19Xml'], drivers=['drv_userfield'])
+    ok = chk.prove(modules=['OdfModel.Props.C19', 'OdfModel.Props.C19Xml', 'OdfModel.Props.C19Pkg'], drivers=['drv_userfield'])
     if not ok:
         chk.lake(['build', 'drv_userfield'])
-    chk.assumptions.append('C19: load/save underneath update is not modelled (property C05); the oracle compares update(out) with a plain '
-                           'load+save of the same source member by member on every generated package')
+    chk.assumptions.append('C19: the package level of update (Pkg.load, the loop, Pkg.save) is Props/C19Pkg.lean: every member but the root '
+                           "document's own XML parts, and the manifest, are those of a plain load+save for every package and dictionary; the XML "
+                           'loader and serialiser underneath are a parameter there (XmlLayer; properties C04/C05), and the oracle compares update(out) '
+                           'with a plain load+save of the same source member by member on every generated package')
     drv = chk.driver('drv_userfield')
     tmp = tempfile.mkdtemp(prefix='c19-')
     try:
